@@ -1,7 +1,7 @@
 (* C14 — property theorems: images bit-exact, numbered, on the right unit.
    Statements closed by `exact`, each followed by Print Assumptions. *)
 From Coq Require Import ZArith List Bool Lia.
-From S2T Require Import Lib.PyStr C01.Loops C14.Model C14.ProofsPath C14.ProofsSniff C14.ProofsNum C14.ProofsPass.
+From S2T Require Import Lib.PyStr C01.Loops C14.Model C14.ProofsPath C14.ProofsSniff C14.ProofsNum C14.ProofsPass C14.ProofsLegacy.
 Import ListNotations.
 
 (* ================= 1. part-name resolution (resolve_part_name, used by docx/pptx/xlsx/epub) ================= *)
@@ -409,3 +409,34 @@ Theorem C14_content_type_bytes_fallback :
     = match assoc (lower ext) tbl with Some v => v | None => match sn with Some c => c | None => s "image/" ++ lower ext end end.
 Proof. exact ooxml_content_type_b_spec. Qed.
 Print Assumptions C14_content_type_bytes_fallback.
+
+(* ================= 7. legacy BLIP images (XLS): detection, DIB wrapping, numbering, provenance ================= *)
+Open Scope Z_scope.
+(* detect_image_type recognises every well-formed PNG / GIF / BMP / JPEG file of the sniffer theorems as what it is *)
+Theorem C14_detect_type_wellformed :
+  (forall clen w h rest, List.length clen = 4%nat -> detect_type (png_file clen w h rest) = Some T_png)
+  /\ (forall v w h rest, detect_type (gif_file v w h rest) = Some T_gif)
+  /\ (forall hdr w h rest, List.length hdr = 16%nat -> detect_type (bmp_file hdr w h rest) = Some T_bmp)
+  /\ (forall segs m prec h w tail rest, detect_type (jpeg_file segs m prec h w tail rest) = Some T_jpeg).
+Proof. exact (conj detect_png (conj detect_gif (conj detect_bmp detect_jpeg))). Qed.
+Print Assumptions C14_detect_type_wellformed.
+
+(* wrap_dib_as_bmp: a 14-byte "BM" file header in front of the untouched DIB bytes *)
+Theorem C14_wrap_dib_passthrough :
+  forall d b, wrap_dib d = Some b -> exists hdr, List.length hdr = 14%nat /\ b = hdr ++ d /\ firstn 2 hdr = BM.
+Proof. exact wrap_dib_passthrough. Qed.
+Print Assumptions C14_wrap_dib_passthrough.
+
+(* the XLS image stage (sha1 digest = oracle): numbers k+1..k+n; every image is a slice found by the record walk
+   (C01 xls_blips), bit-exact, or the BMP wrapping of a DIB slice; classified from its own bytes *)
+Theorem C14_xls_images :
+  forall (D : Type) (digest : list Z -> D) (deq : D -> D -> bool) (seen : list D) (k : Z) (l : list (Z * list Z)),
+    map (fun x => fst (fst x)) (xls_stage digest deq seen k l) = zseq k (List.length (xls_stage digest deq seen k l))
+    /\ (forall n t b, In (n, t, b) (xls_stage digest deq seen k l) ->
+          exists rt d, In (rt, d) l /\ classify rt d = Some (t, b) /\ (b = d \/ wrap_dib d = Some b)).
+Proof.
+  intros D digest deq seen k l. split; [exact (xls_stage_numbers D digest deq l seen k)|].
+  intros n t b H. destruct (xls_stage_provenance D digest deq l seen k n t b H) as [rt [d [H1 H2]]].
+  exists rt, d. split; [exact H1|]. split; [exact H2 | exact (classify_bytes rt d t b H2)].
+Qed.
+Print Assumptions C14_xls_images.
